@@ -1,3 +1,141 @@
-import LinfaSpec.Model.Predict
+import LinfaSpec.Proofs.Predict
+import Mathlib.Order.Defs.LinearOrder
+
+/-!
+# C03 — prediction is a per-sample function through every calling form
+-/
 namespace LinfaSpec.Props.C03
+open LinfaSpec.Predict
+
+/-! ## MultiTargetModel -/
+
+/-- **column j of the wrapper is model j's prediction, row by row**: for members that are
+per-sample functions `g_j`, the flat-buffer / `into_shape((m, n))` / `reversed_axes` pipeline never
+fails and yields the `n × m` table `out[i][j] = g_j (rows[i])` — for every number of rows
+(incl. none) and every number of members (incl. none). -/
+theorem multiTarget_spec {R L : Type} (gs : List (R → L)) (rows : List R) :
+    multiTargetBatch (gs.map fun g => fun rs => rs.map g) rows =
+      some (rows.map fun r => gs.map fun g => g r) := by
+  unfold multiTargetBatch
+  simp only [List.flatMap_map, List.length_map, flatMap_map_length, ne_eq, not_true_eq_false,
+    if_false, Option.some.injEq]
+  apply List.ext_getElem?
+  intro i
+  by_cases hi : i < rows.length
+  · simp only [List.getElem?_map, List.getElem?_range hi, Option.map_some,
+      List.getElem?_eq_getElem hi]
+    congr 1
+    have : ∀ j, (gs.flatMap fun g => rows.map g)[j * rows.length + i]? =
+        (gs[j]?).map fun g => g rows[i] := by
+      intro j
+      rw [flat_getElem? gs rows i j hi, List.getElem?_eq_getElem hi]
+      cases gs[j]? <;> simp
+    simp only [this]
+    exact filterMap_range_getElem? gs (fun g => g rows[i])
+  · have h1 : rows.length ≤ i := by omega
+    simp [h1]
+
+example : multiTargetBatch ([fun (x : Nat) => x + 100, fun x => 2 * x].map fun g => fun rs => rs.map g) [1, 2, 3]
+    = some [[101, 2], [102, 4], [103, 6]] := by decide
+
+/-- the `j * n + i` index statement itself -/
+theorem multiTarget_entry {R L : Type} (gs : List (R → L)) (rows : List R) (i j : Nat)
+    (hi : i < rows.length) (hj : j < gs.length) :
+    ∃ out, multiTargetBatch (gs.map fun g => fun rs => rs.map g) rows = some out ∧
+      (out[i]?).bind (·[j]?) = some (gs[j] rows[i]) := by
+  refine ⟨_, multiTarget_spec gs rows, ?_⟩
+  simp [List.getElem?_eq_getElem hi, List.getElem?_eq_getElem hj]
+
+example : ∃ out, multiTargetBatch ([fun (x : Nat) => x + 100, fun x => 2 * x].map fun g => fun rs => rs.map g) [1, 2, 3] = some out ∧
+    (out[2]?).bind (·[1]?) = some 6 := multiTarget_entry _ _ 2 1 (by decide) (by decide)
+
+
+/-! ## MultiClassModel -/
+
+/-- the wrapper's whole-batch loop (first member initialises, every later member overwrites
+where its probability is strictly higher, labels written into the default-filled target) equals,
+row by row, the per-row running arg-max over the members — any batch, any number of members. -/
+theorem multiClass_batch_eq_map {R L P : Type} [LT P] [DecidableLT P]
+    (ms : List (L × (R → P))) (rows : List R) (dflt : L) :
+    multiClassBatch (ms.map fun m => (m.1, fun rs => rs.map m.2)) rows dflt =
+      rows.map fun r => multiClassRow ms r dflt := by
+  unfold multiClassBatch
+  cases hrows : rows with
+  | nil => simp [multiClass_fold_nil]
+  | cons r0 rs =>
+    rw [← hrows]
+    have hne : rows ≠ [] := by simp [hrows]
+    cases ms with
+    | nil => simp [multiClassRow, List.map_const']
+    | cons m ms =>
+      simp only [List.map_cons, List.foldl_cons]
+      have h0 : multiClassStep ([] : List (L × P)) ((rows.map m.2).map fun p => (m.1, p)) =
+          rows.map fun r => (m.1, m.2 r) := by
+        simp [multiClassStep]
+      rw [h0, multiClass_fold_cons ms rows hne]
+      simp [multiClassRow, List.take_of_length_le]
+
+example : multiClassBatch ([(7, fun (x : Nat) => x % 3), (9, fun x => x % 2), (4, fun x => x % 3)].map
+    fun m => (m.1, fun rs => rs.map m.2)) [0, 1, 2, 3] 0 = [7, 7, 7, 9] := by decide
+
+/-- **the label returned is that of the first member with the highest probability**: the running
+arg-max splits the (label, probability) list as `pre ++ r :: post` with everything before `r`
+strictly smaller and nothing anywhere larger. -/
+theorem multiClass_argmax {L P : Type} [LinearOrder P] (best : L × P) (ds : List (L × P)) :
+    ∃ pre post, best :: ds = pre ++ argmaxPairGo best ds :: post ∧
+      (∀ d ∈ pre, d.2 < (argmaxPairGo best ds).2) ∧
+      (∀ d ∈ best :: ds, d.2 ≤ (argmaxPairGo best ds).2) := by
+  induction ds generalizing best with
+  | nil => exact ⟨[], [], rfl, by simp, by simp [argmaxPairGo]⟩
+  | cons d rest ih =>
+    simp only [argmaxPairGo]
+    by_cases h : best.2 < d.2
+    · simp only [h, if_true]
+      obtain ⟨pre, post, e, hpre, hall⟩ := ih d
+      have hd : d.2 ≤ (argmaxPairGo d rest).2 := hall d (by simp)
+      refine ⟨best :: pre, post, by rw [e]; rfl, ?_, ?_⟩
+      · intro x hx
+        rcases List.mem_cons.mp hx with rfl | hx
+        · exact lt_of_lt_of_le h hd
+        · exact hpre x hx
+      · intro x hx
+        rcases List.mem_cons.mp hx with rfl | hx
+        · exact le_of_lt (lt_of_lt_of_le h hd)
+        · exact hall x hx
+    · simp only [h, if_false]
+      have hle : d.2 ≤ best.2 := not_lt.mp h
+      obtain ⟨pre, post, e, hpre, hall⟩ := ih best
+      have hb : best.2 ≤ (argmaxPairGo best rest).2 := hall best (by simp)
+      cases pre with
+      | nil =>
+        simp only [List.nil_append, List.cons.injEq] at e
+        refine ⟨[], d :: rest, ?_, by simp, ?_⟩
+        · rw [← e.1]; rfl
+        · intro x hx
+          rcases List.mem_cons.mp hx with rfl | hx
+          · exact hb
+          · rcases List.mem_cons.mp hx with rfl | hx
+            · exact le_trans hle hb
+            · exact hall x (List.mem_cons_of_mem _ hx)
+      | cons p pre' =>
+        simp only [List.cons_append, List.cons.injEq] at e
+        obtain ⟨e1, e2⟩ := e
+        subst e1
+        have hbl : best.2 < (argmaxPairGo best rest).2 := hpre best (by simp)
+        refine ⟨best :: d :: pre', post, by rw [List.cons_append, List.cons_append, ← e2], ?_, ?_⟩
+        · intro x hx
+          rcases List.mem_cons.mp hx with rfl | hx
+          · exact hbl
+          · rcases List.mem_cons.mp hx with rfl | hx
+            · exact lt_of_le_of_lt hle hbl
+            · exact hpre x (List.mem_cons_of_mem _ hx)
+        · intro x hx
+          rcases List.mem_cons.mp hx with rfl | hx
+          · exact hb
+          · rcases List.mem_cons.mp hx with rfl | hx
+            · exact le_trans hle hb
+            · exact hall x (List.mem_cons_of_mem _ hx)
+
+example : argmaxPairGo (7, 1) [(9, 3), (4, 3), (5, 2)] = (9, 3) := by decide
+
 end LinfaSpec.Props.C03
